@@ -573,7 +573,13 @@ func init() {
 			}
 			out = putText(out, lf)
 		}
-		s.VerifOpen(items[root])
+		// root >= 0: the item is opened; root = -(i+1): the reply collection of item i is opened as a page of its own
+		// (what ":feed" and ":open <collection>" do: switchTo(Container))
+		if root >= 0 {
+			s.VerifOpen(items[root])
+		} else {
+			s.VerifOpen(items[-root-1].kids)
+		}
 		observe()
 		for r.more() {
 			k := r.next()
